@@ -1,4 +1,646 @@
-import PieModel.Build.Pie
+/-
+Property C09: whether a dependency is consistent is decided only by its own checker applied to
+the stamp taken when the dependency was created — for a read, from the very reader handed to the
+task, before the task reads; for a write, after the task's write function has finished; for a
+require, from the output returned to the requirer.  A dependency whose checker reports
+consistency never causes re-execution, and one whose checker reports inconsistency always does
+when its owner is validated.
+
+The statements are about the model's definitions as they are; the unfolding work is in
+`PieModel/Build/Proofs/{SessionLemmas,TopDownSteps,BottomUpSteps,CurLemmas,TopDownExt}.lean`.
+-/
+import PieModel.Build.Proofs.CurLemmas
+import PieModel.Build.Proofs.TopDownExt
+import PieModel.Build.Proofs.BottomUpExt
+import PieModel.Build.Proofs.DecEq
+import PieModel.Build.StdSem
+import PieModel.Build.Script
+
 namespace PieModel
-theorem C09_placeholder : True := trivial
+open Sess SessL
+
+variable (sem : Sem) (body : Nat → Prog)
+
+/-! ### creation of a read dependency -/
+
+/-- A successful read in task node `cur`: the value handed to the task *is* the content seen by
+the reader, the stamp is the checker's stamp of that same content (taken before the task gets the
+value), and exactly the dependency `read r c stamp` is added; the resource state is untouched. -/
+theorem C09_read_stamp (s s' : Sess) (r c cur : Nat) (v : Option Int) (st : Store) (dst : Nat)
+    (hcur : s.cur = some cur) (hn : s.store.getOrCreateResNode r = (st, dst))
+    (h : doRead sem s r c = (s', .ok (.ok v))) :
+    v = s.content r ∧
+    ∃ stamp, sem.rstamp c (s.content r) = .ok stamp ∧
+      s'.trace = s.trace ++ [.readStart r c, .readEnd r c stamp] ∧
+      s'.store = (st.addDependency cur dst (.read r c stamp)).1 ∧
+      s'.fs = s.fs := by
+  rw [doRead_eq sem s r c cur st dst hcur hn] at h
+  split at h
+  · cases h
+  · split at h
+    · cases h
+    · rename_i stamp hst
+      split at h
+      · cases h
+      · rename_i st' a _ hadd
+        cases h
+        exact ⟨rfl, stamp, hst, rfl, by rw [hadd], rfl⟩
+
+/-- If stamping fails (and the read is not a hidden dependency), the error goes to the task, only
+`read_start` is reported and no dependency is added. -/
+theorem C09_read_stamp_error (s : Sess) (r c cur : Nat) (e : Int) (st : Store) (dst : Nat)
+    (hcur : s.cur = some cur) (hn : s.store.getOrCreateResNode r = (st, dst))
+    (hnh : readHidden st cur dst = false) (hst : sem.rstamp c (s.content r) = .error e) :
+    doRead sem s r c =
+      ({ s with store := st, trace := s.trace ++ [.readStart r c] }, .ok (.error e)) := by
+  rw [doRead_eq sem s r c cur st dst hcur hn]
+  simp [hnh, hst]
+
+/-! ### creation of a write dependency -/
+
+/-- A successful `write`: the stamp is the checker's stamp of the content *after* the write
+function has run (`s'.content r`), it is what `write_end` reports and what the dependency
+`write r c stamp` stores. -/
+theorem C09_write_stamp_after_write (s s' : Sess) (r c cur : Nat) (v : Option Int) (st : Store)
+    (dst : Nat) (hcur : s.cur = some cur) (hn : s.store.getOrCreateResNode r = (st, dst))
+    (h : doWrite sem s r c v = (s', .ok (.ok ()))) :
+    s'.fs = (s.setContent r v).fs ∧
+    ∃ stamp, sem.rstamp c (s'.content r) = .ok stamp ∧
+      s'.trace = s.trace ++ [.writeStart r c, .writeEnd r c stamp] ∧
+      s'.trace.getLast? = some (.writeEnd r c stamp) ∧
+      s'.store = (st.addDependency cur dst (.write r c stamp)).1 := by
+  rw [doWrite_eq sem s r c cur v st dst hcur hn] at h
+  simp only at h
+  split at h
+  · cases h
+  · split at h
+    · cases h
+    · rename_i stamp hst
+      split at h
+      · cases h
+      · rename_i st' a _ hadd
+        cases h
+        refine ⟨SessL.setContent_fs_with s st _ r v, stamp, ?_, by simp, by simp, by simp [hadd]⟩
+        rw [← hst]; rfl
+
+/-- The content after the write is the value written (resource maps have unique keys). -/
+theorem C09_write_content (s s' : Sess) (r c : Nat) (v : Option Int) (x : Except Int Unit)
+    (hfs : (akeys s.fs).Nodup) (h : doWrite sem s r c v = (s', .ok x)) :
+    s'.content r = v := by
+  have key : s'.fs = (s.setContent r v).fs := by
+    cases hcur : s.cur with
+    | none => rw [doWrite_no_cur sem s r c v hcur] at h; cases h; rfl
+    | some cur =>
+      rcases hp : s.store.getOrCreateResNode r with ⟨st, dst⟩
+      rw [doWrite_eq sem s r c cur v st dst hcur hp] at h
+      simp only at h
+      split at h
+      · cases h
+      · split at h
+        · cases h; exact SessL.setContent_fs_with s st _ r v
+        · split at h
+          · cases h
+          · cases h; exact SessL.setContent_fs_with s st _ r v
+  rw [SessL.content_congr _ _ key, SessL.content_setContent s hfs]
+
+/-- Hence, with unique keys: the stamp stored in the write dependency is the stamp of `v`. -/
+theorem C09_write_stamp_after_write_corrected (s s' : Sess) (r c cur : Nat) (v : Option Int) (st : Store)
+    (dst : Nat) (hcur : s.cur = some cur) (hn : s.store.getOrCreateResNode r = (st, dst))
+    (hfs : (akeys s.fs).Nodup) (h : doWrite sem s r c v = (s', .ok (.ok ()))) :
+    s'.content r = v ∧
+    ∃ stamp, sem.rstamp c v = .ok stamp ∧ s'.trace.getLast? = some (.writeEnd r c stamp) ∧
+      s'.store = (st.addDependency cur dst (.write r c stamp)).1 := by
+  have hc := C09_write_content sem s s' r c v _ hfs h
+  obtain ⟨_, stamp, h₁, _, h₃, h₄⟩ := C09_write_stamp_after_write sem s s' r c cur v st dst hcur hn h
+  exact ⟨hc, stamp, hc ▸ h₁, h₃, h₄⟩
+
+/-- `written_to`: same stamp rule; the content was modified before the call. -/
+theorem C09_wrote_stamp (s s' : Sess) (r c cur : Nat) (v : Option Int) (st : Store)
+    (dst : Nat) (hcur : s.cur = some cur) (hn : s.store.getOrCreateResNode r = (st, dst))
+    (h : doWrote sem s r c v = (s', .ok (.ok ()))) :
+    s'.fs = (s.setContent r v).fs ∧
+    ∃ stamp, sem.rstamp c (s'.content r) = .ok stamp ∧
+      s'.trace = s.trace ++ [.writeStart r c, .writeEnd r c stamp] ∧
+      s'.trace.getLast? = some (.writeEnd r c stamp) ∧
+      s'.store = (st.addDependency cur dst (.write r c stamp)).1 := by
+  rw [doWrote_eq sem s r c cur v st dst hcur hn] at h
+  simp only at h
+  split at h
+  · cases h
+  · split at h
+    · cases h
+    · rename_i stamp hst
+      split at h
+      · cases h
+      · rename_i st' a _ hadd
+        cases h
+        refine ⟨rfl, stamp, ?_, by simp, by simp, by simp [hadd]⟩
+        rw [← hst]; rfl
+
+theorem C09_wrote_stamp_corrected (s s' : Sess) (r c cur : Nat) (v : Option Int) (st : Store)
+    (dst : Nat) (hcur : s.cur = some cur) (hn : s.store.getOrCreateResNode r = (st, dst))
+    (hfs : (akeys s.fs).Nodup) (h : doWrote sem s r c v = (s', .ok (.ok ()))) :
+    s'.content r = v ∧
+    ∃ stamp, sem.rstamp c v = .ok stamp ∧ s'.trace.getLast? = some (.writeEnd r c stamp) ∧
+      s'.store = (st.addDependency cur dst (.write r c stamp)).1 := by
+  obtain ⟨h₀, stamp, h₁, _, h₃, h₄⟩ := C09_wrote_stamp sem s s' r c cur v st dst hcur hn h
+  have hc : s'.content r = v := by
+    rw [SessL.content_congr _ _ h₀, SessL.content_setContent s hfs]
+  exact ⟨hc, stamp, hc ▸ h₁, h₃, h₄⟩
+
+/-! ### creation of a require dependency -/
+
+/-- `update_require_dependency` overwrites the reserved edge with exactly the given dependency. -/
+theorem C09_setDependency_edge {st st' : Store} {src dst : Nat} {d : Dep}
+    (h : st.setDependency src dst d = some st') : st'.g.getEdgeData src dst = some d := by
+  unfold Store.setDependency at h
+  split at h
+  · rename_i d₀ h₀
+    cases h
+    simp only [Dag.getEdgeData] at h₀
+    simp [Dag.getEdgeData, Dag.setEdgeData, aget_amodify, h₀]
+  · cases h
+
+/-- A returning top-down `require`: the stamp reported by `require_end` and stored in the edge
+`requirer → t` is the checker's stamp of the output returned to the requirer. -/
+theorem C09_require_stamp (f : Nat) (s s' : Sess) (t c : Nat) (out : Int)
+    (h : tdRequire sem body (f + 1) s t c = (s', .ok out)) :
+    s'.trace.getLast? = some (.requireEnd t c (sem.ostamp c out) out) ∧
+    ∀ src, s.cur = some src →
+      s'.store.g.getEdgeData src (s.store.getOrCreateTaskNode t).2 =
+        some (.require t c (sem.ostamp c out)) := by
+  simp only [tdRequire] at h
+  split at h
+  · cases h
+  · rename_i s₁ heq
+    split at h
+    · cases h
+    · rename_i s₂ o heq₂
+      split at h
+      · cases h
+      · rename_i s₃ heq₃
+        cases h
+        have c₁ := cur_of_fst (cur_reserveRequire _ _) heq
+        have c₂ := cur_tdMake sem body heq₂
+        simp only [emit_cur] at c₁
+        unfold updateRequire at heq₃
+        simp only [emit_cur, c₂, c₁] at heq₃
+        constructor
+        · split at heq₃
+          · cases heq₃; simp
+          · split at heq₃
+            · cases heq₃; simp
+            · cases heq₃
+        · intro src hsrc
+          simp only [hsrc] at heq₃
+          split at heq₃
+          · cases heq₃
+            exact C09_setDependency_edge (by assumption)
+          · cases heq₃
+
+/-- Same for the bottom-up context. -/
+theorem C09_bu_require_stamp (f : Nat) (s s' : Sess) (t c : Nat) (out : Int)
+    (h : buRequire sem body (f + 1) s t c = (s', .ok out)) :
+    s'.trace.getLast? = some (.requireEnd t c (sem.ostamp c out) out) ∧
+    ∀ src, s.cur = some src →
+      s'.store.g.getEdgeData src (s.store.getOrCreateTaskNode t).2 =
+        some (.require t c (sem.ostamp c out)) := by
+  simp only [buRequire] at h
+  split at h
+  · cases h
+  · rename_i s₁ heq
+    split at h
+    · cases h
+    · rename_i s₂ o heq₂
+      split at h
+      · cases h
+      · rename_i s₃ heq₃
+        cases h
+        have c₁ := cur_of_fst (cur_reserveRequire _ _) heq
+        have c₂ := cur_buMake sem body heq₂
+        simp only [emit_cur] at c₁
+        unfold updateRequire at heq₃
+        simp only [emit_cur, c₂, c₁] at heq₃
+        constructor
+        · split at heq₃
+          · cases heq₃; simp
+          · split at heq₃
+            · cases heq₃; simp
+            · cases heq₃
+        · intro src hsrc
+          simp only [hsrc] at heq₃
+          split at heq₃
+          · cases heq₃
+            simp only [markConsistent_store]
+            exact C09_setDependency_edge (by assumption)
+          · cases heq₃
+
+/-! ### validation of a dependency (top-down) -/
+
+/-- A read dependency is validated by its own checker `c` on the current content and its own
+stored stamp — nothing else enters the verdict. -/
+theorem C09_check_uses_own_read (f : Nat) (s : Sess) (r c : Nat) (stamp : Stamp) (ds : List Dep) :
+    tdCheckDeps sem body (f + 1) s (.read r c stamp :: ds) =
+      match sem.rcheck c (s.content r) stamp with
+      | .ok true =>
+        tdCheckDeps sem body f
+          ((s.emit (.checkResStart r c stamp)).emit (.checkResEnd r c stamp (.ok true))) ds
+      | .ok false =>
+        ((s.emit (.checkResStart r c stamp)).emit (.checkResEnd r c stamp (.ok false)), .ok false)
+      | .error e =>
+        ({ (s.emit (.checkResStart r c stamp)).emit (.checkResEnd r c stamp (.error e)) with
+            errors := s.errors ++ [e] }, .ok false) :=
+  tdCheckDeps_read sem body f s r c stamp ds
+
+theorem C09_check_uses_own_write (f : Nat) (s : Sess) (r c : Nat) (stamp : Stamp) (ds : List Dep) :
+    tdCheckDeps sem body (f + 1) s (.write r c stamp :: ds) =
+      match sem.rcheck c (s.content r) stamp with
+      | .ok true =>
+        tdCheckDeps sem body f
+          ((s.emit (.checkResStart r c stamp)).emit (.checkResEnd r c stamp (.ok true))) ds
+      | .ok false =>
+        ((s.emit (.checkResStart r c stamp)).emit (.checkResEnd r c stamp (.ok false)), .ok false)
+      | .error e =>
+        ({ (s.emit (.checkResStart r c stamp)).emit (.checkResEnd r c stamp (.error e)) with
+            errors := s.errors ++ [e] }, .ok false) :=
+  tdCheckDeps_write sem body f s r c stamp ds
+
+/-- A require dependency: the required task is made consistent first; the verdict is the
+dependency's own output checker on the output just obtained and the stored stamp. -/
+theorem C09_check_uses_own_require (f : Nat) (s : Sess) (t c : Nat) (stamp : Stamp) (ds : List Dep) :
+    tdCheckDeps sem body (f + 1) s (.require t c stamp :: ds) =
+      match tdMake sem body f (s.emit (.checkTaskStart t c stamp)) t with
+      | (s₁, .abort a) => (s₁, .abort a)
+      | (s₁, .ok out) =>
+        if sem.ocheck c out stamp then
+          tdCheckDeps sem body f (s₁.emit (.checkTaskEnd t c stamp true)) ds
+        else (s₁.emit (.checkTaskEnd t c stamp false), .ok false) := by
+  simp only [tdCheckDeps]
+  rcases hm : tdMake sem body f (s.emit (.checkTaskStart t c stamp)) t with ⟨s₁, (out | a)⟩
+  · simp only
+    split <;> simp_all
+  · rfl
+
+/-- A reserved edge can only be seen if the store is corrupt. -/
+theorem C09_check_reserved (f : Nat) (s : Sess) (ds : List Dep) :
+    tdCheckDeps sem body (f + 1) s (.reserved :: ds) = (s, .abort (.bug 11)) := by
+  simp only [tdCheckDeps]
+
+theorem C09_check_nil (f : Nat) (s : Sess) : tdCheckDeps sem body (f + 1) s [] = (s, .ok true) := by
+  simp only [tdCheckDeps]
+
+/-- `check_task`: a task with a cached output is consistent iff the loop over its dependencies
+says so. -/
+theorem C09_tdCheck_eq (f : Nat) (s : Sess) (node : Nat) (o : Int)
+    (ho : s.store.taskOutput node = some o) :
+    tdCheck sem body (f + 1) s node =
+      match tdCheckDeps sem body f s (s.store.depsFrom node) with
+      | (s', .abort a) => (s', .abort a)
+      | (s', .ok false) => (s', .ok none)
+      | (s', .ok true) => (s', .ok (s'.store.taskOutput node)) := by
+  simp only [tdCheck, ho]
+  rfl
+
+theorem C09_tdCheck_no_output (f : Nat) (s : Sess) (node : Nat)
+    (ho : s.store.taskOutput node = none) :
+    tdCheck sem body (f + 1) s node = (s, .ok none) := by
+  simp only [tdCheck, ho]
+
+/-- One inconsistent dependency makes the whole check say "execute". -/
+theorem C09_check_false_gives_none (f : Nat) (s s' : Sess) (node : Nat) (o : Int)
+    (ho : s.store.taskOutput node = some o)
+    (h : tdCheckDeps sem body f s (s.store.depsFrom node) = (s', .ok false)) :
+    tdCheck sem body (f + 1) s node = (s', .ok none) := by
+  rw [C09_tdCheck_eq sem body f s node o ho, h]
+
+/-! ### consequences for `make_task_consistent` -/
+
+/-- The state in which the body of `t` (node `node`) starts executing after the check left `s₁`. -/
+def execStart (s₁ : Sess) (node t : Nat) : Sess :=
+  { s₁ with store := s₁.store.resetTask node, cur := some node,
+            trace := s₁.trace ++ [.executeStart t] }
+
+/-- The state after the body returned `o` in `s₂`; `prev` is the requirer to go back to. -/
+def execFinish (s₂ : Sess) (prev : Option Nat) (node t : Nat) (o : Int) : Sess :=
+  ({ s₂ with store := s₂.store.setTaskOutput node o, cur := prev,
+             trace := s₂.trace ++ [.executeEnd t o] } : Sess).markConsistent node
+
+/-- If the check says "inconsistent" (`ok none`), `make_task_consistent` resets the task and runs
+its body. -/
+theorem C09_inconsistent_triggers_execution (f : Nat) (s s₁ : Sess) (t : Nat) (st : Store)
+    (node : Nat) (hn : s.store.getOrCreateTaskNode t = (st, node)) (hnc : node ∉ s.consistent)
+    (hc : tdCheck sem body f { s with store := st } node = (s₁, .ok none)) :
+    tdMake sem body (f + 1) s t =
+      match tdRun sem body f (execStart s₁ node t) (body t) with
+      | (s₂, .abort a) => (s₂, .abort a)
+      | (s₂, .ok o) => (execFinish s₂ s₁.cur node t o, .ok o) := by
+  simp only [tdMake, hn, hnc, if_false, hc]
+  rfl
+
+/-- … and `execute_start t` is the first event after the check events. -/
+theorem C09_inconsistent_trace (f : Nat) (s s₁ : Sess) (t : Nat) (st : Store)
+    (node : Nat) (hn : s.store.getOrCreateTaskNode t = (st, node)) (hnc : node ∉ s.consistent)
+    (hc : tdCheck sem body f { s with store := st } node = (s₁, .ok none)) :
+    ∃ evs, (tdMake sem body (f + 1) s t).1.trace = s₁.trace ++ .executeStart t :: evs := by
+  rw [C09_inconsistent_triggers_execution sem body f s s₁ t st node hn hnc hc]
+  obtain ⟨evs, hevs⟩ := (ext_tdRun sem body f (execStart s₁ node t) (body t)).trace_prefix
+  split
+  · rename_i heq
+    rw [heq] at hevs
+    simp only [execStart] at hevs
+    exact ⟨evs, by simp [hevs]⟩
+  · rename_i s₂ o heq
+    rw [heq] at hevs
+    simp only [execStart] at hevs
+    exact ⟨evs ++ [.executeEnd t o], by simp [execFinish, hevs]⟩
+
+/-- The whole chain: an inconsistent dependency of a not-yet-validated task with a cached output
+makes `make_task_consistent` execute it. -/
+theorem C09_inconsistent_dep_executes (f : Nat) (s s₁ : Sess) (t : Nat) (st : Store)
+    (node : Nat) (o : Int) (hn : s.store.getOrCreateTaskNode t = (st, node))
+    (hnc : node ∉ s.consistent) (ho : st.taskOutput node = some o)
+    (hd : tdCheckDeps sem body f { s with store := st } (st.depsFrom node) = (s₁, .ok false)) :
+    ∃ evs, (tdMake sem body (f + 2) s t).1.trace = s₁.trace ++ .executeStart t :: evs :=
+  C09_inconsistent_trace sem body (f + 1) s s₁ t st node hn hnc
+    (C09_check_false_gives_none sem body f { s with store := st } s₁ node o ho hd)
+
+/-- If the check says "consistent", the cached output is returned and the body is not run. -/
+theorem C09_consistent_never_triggers (f : Nat) (s s₁ : Sess) (t : Nat) (st : Store)
+    (node : Nat) (o : Int) (hn : s.store.getOrCreateTaskNode t = (st, node))
+    (hnc : node ∉ s.consistent)
+    (hc : tdCheck sem body f { s with store := st } node = (s₁, .ok (some o))) :
+    tdMake sem body (f + 1) s t = (s₁.markConsistent node, .ok o) := by
+  simp only [tdMake, hn, hnc, if_false, hc]
+
+/-- In general: if the loop over the dependencies of a not-yet-validated task with a cached
+output reports "consistent" (all checkers said so and all nested `make_task_consistent` calls
+returned), the output stored for the task is returned and nothing happens after the checks — no
+reset, no `execute_start`: the trace is the trace of the checks. -/
+theorem C09_consistent_deps_reuse (f : Nat) (s s' : Sess) (t : Nat) (st : Store) (node : Nat)
+    (o o' : Int) (hn : s.store.getOrCreateTaskNode t = (st, node)) (hnc : node ∉ s.consistent)
+    (ho : st.taskOutput node = some o)
+    (hd : tdCheckDeps sem body f { s with store := st } (st.depsFrom node) = (s', .ok true))
+    (ho' : s'.store.taskOutput node = some o') :
+    tdMake sem body (f + 2) s t = (s'.markConsistent node, .ok o') ∧
+    (tdMake sem body (f + 2) s t).1.trace = s'.trace ∧
+    (tdMake sem body (f + 2) s t).1.store = s'.store := by
+  have hc : tdCheck sem body (f + 1) { s with store := st } node = (s', .ok (some o')) := by
+    rw [C09_tdCheck_eq sem body f _ node o ho]
+    simp only [hd, ho']
+  rw [C09_consistent_never_triggers sem body (f + 1) s s' t st node o' hn hnc hc]
+  simp
+
+/-- A task already validated in this session is not even checked. -/
+theorem C09_already_consistent (f : Nat) (s : Sess) (t : Nat) (st : Store)
+    (node : Nat) (o : Int) (hn : s.store.getOrCreateTaskNode t = (st, node))
+    (hc : node ∈ s.consistent) (ho : st.taskOutput node = some o) :
+    tdMake sem body (f + 1) s t = ({ s with store := st }, .ok o) := by
+  simp only [tdMake, hn, hc, if_true, ho]
+
+/-! ### a task all of whose dependencies are consistent resource dependencies -/
+
+/-- `d` is a resource dependency whose own checker reports "consistent" on the content in `s`. -/
+def resConsistent (s : Sess) : Dep → Prop
+  | .read r c stamp => sem.rcheck c (s.content r) stamp = .ok true
+  | .write r c stamp => sem.rcheck c (s.content r) stamp = .ok true
+  | _ => False
+
+/-- The tracker events of checking such a list. -/
+def checkEvents : List Dep → List Ev
+  | [] => []
+  | .read r c stamp :: ds =>
+    .checkResStart r c stamp :: .checkResEnd r c stamp (.ok true) :: checkEvents ds
+  | .write r c stamp :: ds =>
+    .checkResStart r c stamp :: .checkResEnd r c stamp (.ok true) :: checkEvents ds
+  | _ :: ds => checkEvents ds
+
+theorem C09_checkEvents_no_execute (ds : List Dep) (t : Nat) : .executeStart t ∉ checkEvents ds := by
+  induction ds with
+  | nil => simp [checkEvents]
+  | cons d ds ih => cases d <;> simp [checkEvents, ih]
+
+theorem C09_resConsistent_congr (s s₂ : Sess) (h : s₂.fs = s.fs) (d : Dep) :
+    resConsistent sem s₂ d ↔ resConsistent sem s d := by
+  cases d <;> simp [resConsistent, SessL.content_congr _ _ h]
+
+/-- All dependencies consistent resource dependencies ⇒ the loop says "consistent", touches
+nothing but the trace, and reports nothing but the checks. -/
+theorem C09_checkDeps_all_consistent (ds : List Dep) (f : Nat) (s : Sess) (hf : ds.length < f)
+    (hall : ∀ d ∈ ds, resConsistent sem s d) :
+    tdCheckDeps sem body f s ds = ({ s with trace := s.trace ++ checkEvents ds }, .ok true) := by
+  induction ds generalizing f s with
+  | nil =>
+    obtain ⟨f, rfl⟩ : ∃ f', f = f' + 1 := ⟨f - 1, by simp at hf; omega⟩
+    simp [C09_check_nil, checkEvents]
+  | cons d ds ih =>
+    obtain ⟨f, rfl⟩ : ∃ f', f = f' + 1 := ⟨f - 1, by simp at hf; omega⟩
+    have hd := hall d (by simp)
+    have hds : ∀ (s₂ : Sess), s₂.fs = s.fs → ∀ d ∈ ds, resConsistent sem s₂ d := fun s₂ h₂ d' hd' =>
+      (C09_resConsistent_congr sem s s₂ h₂ d').mpr (hall d' (by simp [hd']))
+    have hf' : ds.length < f := by simp at hf; omega
+    cases d with
+    | reserved => exact absurd hd (by simp [resConsistent])
+    | require t c stamp => exact absurd hd (by simp [resConsistent])
+    | read r c stamp =>
+      simp only [resConsistent] at hd
+      rw [C09_check_uses_own_read, hd]
+      simp only
+      rw [ih f ((s.emit (.checkResStart r c stamp)).emit (.checkResEnd r c stamp (.ok true))) hf'
+        (hds _ rfl)]
+      simp [checkEvents]
+    | write r c stamp =>
+      simp only [resConsistent] at hd
+      rw [C09_check_uses_own_write, hd]
+      simp only
+      rw [ih f ((s.emit (.checkResStart r c stamp)).emit (.checkResEnd r c stamp (.ok true))) hf'
+        (hds _ rfl)]
+      simp [checkEvents]
+
+/-- Consistent dependencies never trigger re-execution: `make_task_consistent` returns the cached
+output; store, resources, errors are as before (up to creation of the node), and the new events
+are the checks only — in particular no `execute_start`. -/
+theorem C09_consistent_resources_reuse (f : Nat) (s : Sess) (t : Nat) (st : Store) (node : Nat)
+    (o : Int) (hn : s.store.getOrCreateTaskNode t = (st, node)) (hnc : node ∉ s.consistent)
+    (ho : st.taskOutput node = some o) (hf : (st.depsFrom node).length < f)
+    (hall : ∀ d ∈ st.depsFrom node, resConsistent sem s d) :
+    tdMake sem body (f + 2) s t =
+      (({ s with store := st, trace := s.trace ++ checkEvents (st.depsFrom node) } : Sess).markConsistent
+        node, .ok o) ∧
+    ∀ t', .executeStart t' ∉ checkEvents (st.depsFrom node) := by
+  refine ⟨?_, fun t' => C09_checkEvents_no_execute _ t'⟩
+  have hd := C09_checkDeps_all_consistent sem body (st.depsFrom node) f { s with store := st } hf
+    (fun d hd => (C09_resConsistent_congr sem s _ rfl d).mpr (hall d hd))
+  have hc : tdCheck sem body (f + 1) { s with store := st } node =
+      ({ s with store := st, trace := s.trace ++ checkEvents (st.depsFrom node) }, .ok (some o)) := by
+    rw [C09_tdCheck_eq sem body f _ node o ho]
+    simp only [hd, ho]
+  exact C09_consistent_never_triggers sem body (f + 1) s _ t st node o hn hnc hc
+
+/-- For an existing task node, node lookup changes nothing. -/
+theorem C09_existing_node (st : Store) (t node : Nat) (h : aget st.taskNode t = some node) :
+    st.getOrCreateTaskNode t = (st, node) := by
+  simp [Store.getOrCreateTaskNode, h]
+
+/-! ### bottom-up scheduling -/
+
+theorem C09_mem_queueAdd (q : List Nat) (n x : Nat) : x ∈ queueAdd q n ↔ x ∈ q ∨ x = n := by
+  unfold queueAdd
+  split
+  · constructor
+    · exact Or.inl
+    · rintro (h | rfl) <;> assumption
+  · simp
+
+/-- `try_schedule_task_by_resource_dependency`, read dependency of task `t` (node `tnode`): the
+verdict is the dependency's own checker on the current content and the stored stamp; the task is
+scheduled unless that verdict is "consistent". -/
+theorem C09_trySchedule_spec (s : Sess) (tnode t r c : Nat) (stamp : Stamp)
+    (ht : s.store.taskOf tnode = some t) :
+    trySchedule sem s tnode (.read r c stamp) =
+      match sem.rcheck c (s.content r) stamp with
+      | .ok true => (s.emit (.checkReadStart t c stamp)).emit (.checkReadEnd t c stamp (.ok true))
+      | .ok false =>
+        { (((s.emit (.checkReadStart t c stamp)).emit (.checkReadEnd t c stamp (.ok false))).emit
+            (.scheduleTask t)) with queue := queueAdd s.queue tnode }
+      | .error e =>
+        { (((s.emit (.checkReadStart t c stamp)).emit (.checkReadEnd t c stamp (.error e))).emit
+            (.scheduleTask t)) with errors := s.errors ++ [e], queue := queueAdd s.queue tnode } := by
+  rw [trySchedule_read sem s tnode t r c stamp ht]
+  rcases sem.rcheck c (s.content r) stamp with e | (_ | _) <;> rfl
+
+theorem C09_trySchedule_write_spec (s : Sess) (tnode t r c : Nat) (stamp : Stamp)
+    (ht : s.store.taskOf tnode = some t) :
+    trySchedule sem s tnode (.write r c stamp) =
+      match sem.rcheck c (s.content r) stamp with
+      | .ok true => (s.emit (.checkReadStart t c stamp)).emit (.checkReadEnd t c stamp (.ok true))
+      | .ok false =>
+        { (((s.emit (.checkReadStart t c stamp)).emit (.checkReadEnd t c stamp (.ok false))).emit
+            (.scheduleTask t)) with queue := queueAdd s.queue tnode }
+      | .error e =>
+        { (((s.emit (.checkReadStart t c stamp)).emit (.checkReadEnd t c stamp (.error e))).emit
+            (.scheduleTask t)) with errors := s.errors ++ [e], queue := queueAdd s.queue tnode } := by
+  rw [trySchedule_write sem s tnode t r c stamp ht]
+  rcases sem.rcheck c (s.content r) stamp with e | (_ | _) <;> rfl
+
+/-- Anything else is ignored. -/
+theorem C09_trySchedule_other (s : Sess) (tnode : Nat) (d : Dep)
+    (h : s.store.taskOf tnode = none ∨ d = .reserved ∨ ∃ t c stamp, d = .require t c stamp) :
+    trySchedule sem s tnode d = s :=
+  trySchedule_other sem s tnode d h
+
+/-- The queue after the step: scheduled iff the checker did not say "consistent". -/
+theorem C09_trySchedule_queue (s : Sess) (tnode t r c : Nat) (stamp : Stamp)
+    (ht : s.store.taskOf tnode = some t) :
+    (trySchedule sem s tnode (.read r c stamp)).queue =
+      if sem.rcheck c (s.content r) stamp = .ok true then s.queue else queueAdd s.queue tnode := by
+  rw [C09_trySchedule_spec sem s tnode t r c stamp ht]
+  split <;> simp_all
+
+/-- `scheduleAfterExec` is: a fold of `writtenSchedStep` over the written resources, then a fold
+of `reqSchedStep out` over the require dependencies to the executed task. -/
+theorem C09_scheduleAfterExec_eq (s : Sess) (node t : Nat) (out : Int) :
+    scheduleAfterExec sem s node t out =
+      let s₁ := (s.store.resourcesWrittenBy node).foldl (writtenSchedStep sem) s
+      let s₂ := s₁.emit (.schedTaskStart t)
+      let s₃ := (s₂.store.requireDepsTo node).foldl (reqSchedStep sem out) s₂
+      (s₃.emit (.schedTaskEnd t)).markConsistent node :=
+  scheduleAfterExec_eq sem s node t out
+
+/-- The fold step for a requirer (node `n`, task `requiring`) holding `require _ c stamp`:
+checked by its own output checker against the new output `out` and its stored stamp. -/
+theorem C09_scheduleAfterExec_step (out : Int) (s : Sess) (n t' c requiring : Nat) (stamp : Stamp)
+    (ht : s.store.taskOf n = some requiring) :
+    reqSchedStep sem out s (n, .require t' c stamp) =
+      if sem.ocheck c out stamp then
+        (s.emit (.checkReqStart requiring c stamp)).emit (.checkReqEnd requiring c stamp true)
+      else
+        { (((s.emit (.checkReqStart requiring c stamp)).emit
+              (.checkReqEnd requiring c stamp false)).emit (.scheduleTask requiring)) with
+          queue := queueAdd s.queue n } := by
+  rw [reqSchedStep_require sem out s n t' c requiring stamp ht]
+  simp only
+  split <;> simp_all [scheduleEv]
+
+/-- The requirer is scheduled exactly when its checker reports inconsistency. -/
+theorem C09_scheduleAfterExec_schedules_iff (out : Int) (s : Sess) (n t' c requiring : Nat)
+    (stamp : Stamp) (ht : s.store.taskOf n = some requiring) (hq : n ∉ s.queue) :
+    n ∈ (reqSchedStep sem out s (n, .require t' c stamp)).queue ↔ sem.ocheck c out stamp = false := by
+  rw [reqSchedStep_queue sem out s n t' c requiring stamp ht]
+  split
+  · simp_all
+  · simp_all [C09_mem_queueAdd]
+
+/-! ### non-vacuity: a two-task program under the standard checkers -/
+
+open DecEqAux
+
+/-- Task 0 reads resource 7 (`MapEquals`) and returns content + 1; task 1 requires task 0
+(`Equals`), writes the output to resource 8 and returns it. -/
+def c09Tbl : List (Nat × Script) :=
+  [(0, .read 7 0 (.ret (.add (.var 0) (.const 1)))),
+   (1, .req 0 0 (.write 8 0 (some (.var 0)) (.ret (.var 0))))]
+
+def c09Run1 := sessionRequire stdSem (bodyOf c09Tbl) 100 (PieSt.newSession { fs := [(7, 5)] }) 1
+def c09Pie1 : PieSt := c09Run1.1.toPie
+/-- second session, nothing changed -/
+def c09Run2 := sessionRequire stdSem (bodyOf c09Tbl) 100 c09Pie1.newSession 1
+/-- second session after resource 7 changed to 9 -/
+def c09Run3 := sessionRequire stdSem (bodyOf c09Tbl) 100 (c09Pie1.setContent 7 (some 9)).newSession 1
+/-- the same change, bottom-up -/
+def c09Run4 := bottomUpBuild stdSem (bodyOf c09Tbl) 100 (c09Pie1.setContent 7 (some 9)).newSession [7]
+
+/-- Stamps at creation: read stamp = stamp of the content seen (5), require stamp = stamp of the
+output returned (6), write stamp = stamp of the content after the write (6). -/
+example : c09Run1.2 = .ok 6 ∧ c09Run1.1.trace =
+    [.buildStart, .requireStart 1 4, .executeStart 1, .requireStart 0 0, .executeStart 0,
+     .readStart 7 0, .readEnd 7 0 (.optInt (some 5)), .executeEnd 0 6,
+     .requireEnd 0 0 (.int 6) 6, .writeStart 8 0, .writeEnd 8 0 (.optInt (some 6)),
+     .executeEnd 1 6, .requireEnd 1 4 .unit 6, .buildEnd] := by decide +kernel
+
+/-- All checkers consistent: nothing is executed, the cached output is returned. -/
+example : c09Run2.2 = .ok 6 ∧ c09Run2.1.trace =
+    [.buildStart, .requireStart 1 4, .checkTaskStart 0 0 (.int 6),
+     .checkResStart 7 0 (.optInt (some 5)), .checkResEnd 7 0 (.optInt (some 5)) (.ok true),
+     .checkTaskEnd 0 0 (.int 6) true,
+     .checkResStart 8 0 (.optInt (some 6)), .checkResEnd 8 0 (.optInt (some 6)) (.ok true),
+     .requireEnd 1 4 .unit 6, .buildEnd] := by decide +kernel
+
+/-- The read dependency's checker reports inconsistency: task 0 is executed right after its check;
+its new output makes the require dependency of task 1 inconsistent, so task 1 is executed too. -/
+example : c09Run3.2 = .ok 10 ∧ c09Run3.1.trace =
+    [.buildStart, .requireStart 1 4, .checkTaskStart 0 0 (.int 6),
+     .checkResStart 7 0 (.optInt (some 5)), .checkResEnd 7 0 (.optInt (some 5)) (.ok false),
+     .executeStart 0, .readStart 7 0, .readEnd 7 0 (.optInt (some 9)), .executeEnd 0 10,
+     .checkTaskEnd 0 0 (.int 6) false,
+     .executeStart 1, .requireStart 0 0, .requireEnd 0 0 (.int 10) 10,
+     .writeStart 8 0, .writeEnd 8 0 (.optInt (some 10)), .executeEnd 1 10,
+     .requireEnd 1 4 .unit 10, .buildEnd] := by decide +kernel
+
+/-- Bottom-up: the reader is scheduled by its own checker's verdict, its requirer by the verdict of
+the require dependency's checker on the new output. -/
+example : c09Run4.1.trace.take 5 =
+    [.schedResStart 7, .checkReadStart 0 0 (.optInt (some 5)),
+     .checkReadEnd 0 0 (.optInt (some 5)) (.ok false), .scheduleTask 0, .schedResEnd 7] ∧
+    (Ev.checkReqEnd 1 0 (.int 6) false) ∈ c09Run4.1.trace ∧ Ev.scheduleTask 1 ∈ c09Run4.1.trace ∧
+    c09Run4.1.fs = [(7, 9), (8, 10)] := by decide +kernel
+
+/-- Key uniqueness of the resource map is an invariant of sessions: it holds for every state
+reached from a `Pie` whose map has unique keys by `require`s and bottom-up builds (returning or
+aborting), so the hypothesis of the `_corrected` statements is always available there. -/
+theorem C09_fs_keys_unique (p : PieSt) (hp : (akeys p.fs).Nodup) (ops : List SessOp) :
+    (akeys (ops.foldl (SessOp.run sem body) p.newSession).fs).Nodup :=
+  (ext_ops sem body p.newSession ops).fsKeys hp
+
+/-- External changes through `Pie::resource_state_mut` keep the keys unique, too. -/
+theorem C09_pie_setContent_keys_unique (p : PieSt) (hp : (akeys p.fs).Nodup) (r : Nat) (v : Option Int) :
+    (akeys (p.setContent r v).fs).Nodup := by
+  cases v with
+  | some x => exact akeys_aset_nodup p.fs r x hp
+  | none => exact akeys_aerase_nodup p.fs r hp
+
+/-- Without unique keys `remove` does not make the resource absent (so the hypothesis of
+`C09_write_content` is needed; every `fs` reachable from a duplicate-free one is duplicate-free,
+`SessL.setContent_nodup`). -/
+example : (({ fs := [(0, 1), (0, 2)] } : Sess).setContent 0 none).content 0 = some 2 := by decide
+
 end PieModel
